@@ -15,7 +15,8 @@
 (*  RUN, FILE, LAST, PASSEND, FILEEND, EXIT   as in Driver_Trace           *)
 (*  PASS  Driver_Trace's PASS + [last, hasfile, recs, problems, entries]:  *)
 (*        for the last pass of a kept file the code file as parsed by the  *)
-(*        independent reader                                               *)
+(*        independent reader; sy = the sym_def records AssembleFile_InitPass*)
+(*        wrote before pass_begin (predefined symbols)                     *)
 (*  S     one execution of Produce_Code:                                   *)
 (*        pre   lines delivered before it that never became a statement    *)
 (*              (preprocessor lines), each [nl, tx, dp, em]                *)
@@ -29,17 +30,38 @@
 (*        ifasm, stk, rec, tagd, errs, seg, pc, ph, phd, svd, std, len     *)
 (*              state AFTER the statement (stmt record)                    *)
 (*        dg    diag records of the line  [num, cls, errs, warns]          *)
-(*        sd    first sym_def record after the line was delivered          *)
+(*        sy    sym_def / sym_mod / sym_ref records of the line, in order  *)
+(*              [k, name, sect, t, v, x, chg, out] (name as stored, value  *)
+(*              split into type, integer below 2^30, decimal text beyond); *)
+(*              psy: those written while the line was being fetched        *)
+(*        lbn   label field, case-folded, "" if it is not a plain name     *)
+(*              (temporary, composed, with {..} or [..]);  q  a "[" on the *)
+(*              line;  sed  depth of the section stack after the statement *)
+(*        sc, sa  class for the symbol table (SECTION ENDSECTION PUBLIC    *)
+(*              GLOBAL FORWARD EQU SET ENUM NEXTENUM ENUMCONF PUSHV POPV)  *)
+(*              and its tokenised arguments; gsym: {GLOBALSYMBOLS} option  *)
+(*              on a MACRO / loop header                                   *)
 (*        ch    emit / reserve / retract records [k, seg, addr, n, g, b,nb]*)
+(*  FILEEND  + haslst, lst: the symbol table of the listing, tokenised    *)
+(*        [n, s, v] (name, section name, integer value), if one was written*)
 (*  L     lines delivered at the end of a pass that never became a         *)
 (*        statement;   T  diag records outside statements (end of pass)    *)
 (***************************************************************************)
 EXTENDS AsCore, Json, IOUtils
 
-VARIABLES base, ca, ab, mp, cw, tl,
+CONSTANT Block     \* statements taken in ONE step of TLC (a run of consecutive S events is cut into blocks of this
+                   \* length; the statements of a block are executed one after the other by RunBlock - the same
+                   \* StmtSucc, fewer states to fingerprint and queue).  Diagnosis (OffSet # {}) uses Block = 1.
+
+VARIABLES base, ca, ab, mp, cw, tl, sy, en,
           ph, o, d, glob, keptq, cur, pass1, lastpe, resid, lastst, prevdiag
-mine == <<base, ca, ab, mp, cw, tl>>
-vars == <<l, base, ca, ab, mp, cw, tl, ph, o, d, glob, keptq, cur, pass1, lastpe, resid, lastst, prevdiag>>
+mine == <<base, ca, ab, mp, cw, tl, sy, en>>
+vars == <<l, base, ca, ab, mp, cw, tl, sy, en, ph, o, d, glob, keptq, cur, pass1, lastpe, resid, lastst, prevdiag>>
+\* The two trees of the symbol table are kept out of the fingerprint (cfg: VIEW TView): they hold thousands of entries
+\* and are a function of the events consumed so far (SymFold / SyHandler are deterministic in the table; the
+\* alternatives a step may leave open differ in ca / ab / mp, which the view keeps).
+TView == <<l, base, ca, ab, mp, cw, tl, [sy EXCEPT !.tab = 0, !.loc = 0], en,
+           ph, o, d, glob, keptq, cur, pass1, lastpe, resid, lastst, prevdiag>>
 
 DR == INSTANCE Driver_Trace WITH Wrap <- 0, Leaky <- {}
 
@@ -47,70 +69,97 @@ TraceLog == ndJsonDeserialize(IOEnv.TRACE)
 Tx(i) == TraceLog[i].tx
 Recs == TraceLog[base].recs            \* kept out of the state: it is large
 
-MineInit == base = 0 /\ ca = CA!InitM /\ ab = AB!InitB(1) /\ mp = InitMP /\ cw = InitW(FALSE) /\ tl = <<>>
-MineReset == base' = 0 /\ ca' = CA!InitM /\ ab' = AB!InitB(1) /\ mp' = InitMP /\ cw' = InitW(FALSE) /\ tl' = <<>>
-TInit == l = 1 /\ DR!TInit /\ MineInit
+MineInit == /\ base = 0 /\ ca = CA!InitM /\ ab = AB!InitB(1) /\ mp = InitMP /\ cw = InitW(FALSE) /\ tl = <<>>
+            /\ sy = InitSY /\ en = InitEN
+MineReset == /\ base' = 0 /\ ca' = CA!InitM /\ ab' = AB!InitB(1) /\ mp' = InitMP /\ cw' = InitW(FALSE) /\ tl' = <<>>
+             /\ sy' = InitSY /\ en' = InitEN
+\* register 1: how far some behaviour got (index of the first event not consumed); register 2: all consumed
+TInit == l = 1 /\ DR!TInit /\ MineInit /\ TLCSet(1, 1) /\ TLCSet(2, 0)
 
 \* ---- pass boundary ------------------------------------------------------------------------------------------
 \* PassBoundaryResetsEverything: Driver_Trace's Pass (the pass_begin record shows the state of the first pass: segment,
 \* counter, IfAsm, target; counters cleared) and every machine of the composition starts from its initial state -
 \* which the statements that follow then have to confirm (IF stack, counters, tag chain, recorded stream).
+\* The symbol table: the entries and their values survive, the "defined in this pass" marks are reset, the section
+\* stack, the PUSHV stacks and ENUM's counter start anew (Symbols!NextPass); then AssembleFile_InitPass enters the
+\* predefined symbols - like every other definition through SymbolAdder.
 PassBoundaryResetsEverything(e) ==
   /\ DR!Pass(e)
   /\ ca' = CA!InitM /\ ab' = Reset(e) /\ mp' = StartPass(mp, e.pass) /\ cw' = InitW(e.last /\ e.hasfile)
+  /\ LET p == Predefine(IF e.pass = 1 THEN InitSY ELSE sy, e.pass, e.sy) IN p[1] /\ sy' = Quiesce(p[2])
+  /\ en' = InitEN
   /\ base' = l /\ tl' = <<>>
 Pass(e) ==
   /\ (e.last /\ e.hasfile) => CW!WellFormedRecs(e)
   /\ PassBoundaryResetsEverything(e)
 
 \* ---- one statement = one step of every machine -----------------------------------------------------------------
-Stmt(e) ==
+IsS(i) == i <= Len(TraceLog) /\ TraceLog[i].a = "S"
+RECURSIVE BlockEnd(_, _)
+\* last event of the block of at most k statements that starts at i
+BlockEnd(i, k) == IF k > 1 /\ IsS(i + 1) THEN BlockEnd(i + 1, k - 1) ELSE i
+\* S = the composed states before event i; the statements i..j one after the other (a statement behind a fatal
+\* error is not accepted: ph = "pass" is the precondition of every statement).  FoldLeft of the community modules
+\* iterates in Java: the chain in which TLC looks names up does not grow with the position in the block.
+SX == INSTANCE SequencesExt
+RunBlock(S, i, j) ==
+  SX!FoldLeft(LAMBDA acc, k : UNION {{n \in StmtSuccAt(Tx, Recs, o, x, TraceLog[k], k) :
+                                       k = j \/ DR!Dead(n.d) = "pass"} : x \in acc},
+              S, [k \in 1..(j - i + 1) |-> i + k - 1])
+Stmts(j) ==
   /\ ph = "pass"
-  /\ \E n \in StmtSucc(Tx, Recs, o, [ca |-> ca, ab |-> ab, mp |-> mp, cw |-> cw, d |-> d], e) :
+  /\ \E n \in RunBlock({[ca |-> ca, ab |-> ab, mp |-> mp, cw |-> cw, d |-> d, sy |-> sy, en |-> en]}, l, j) :
        /\ ca' = n.ca /\ ab' = n.ab /\ mp' = n.mp /\ cw' = n.cw /\ d' = n.d /\ ph' = DR!Dead(n.d)
+       /\ sy' = n.sy /\ en' = n.en
   /\ prevdiag' = FALSE /\ tl' = <<>>
   /\ UNCHANGED <<base, o, glob, keptq, cur, pass1, lastpe, resid, lastst>>
 
 \* lines handed out by GetNextLine that never reached Produce_Code
 Lines(e) ==
   /\ ph = "pass"
-  /\ \E tg \in Deliver(Tx, mp.tags, e.pre, 1) : mp' = [mp EXCEPT !.tags = tg]
-  /\ UNCHANGED <<base, ca, ab, cw, tl, ph, o, d, glob, keptq, cur, pass1, lastpe, resid, lastst, prevdiag>>
+  /\ \E tg \in Deliver(Tx, [tags |-> mp.tags, lc |-> mp.lc], e.pre, 1) : mp' = [mp EXCEPT !.tags = tg.tags, !.lc = tg.lc]
+  /\ UNCHANGED <<base, ca, ab, cw, tl, sy, en, ph, o, d, glob, keptq, cur, pass1, lastpe, resid, lastst, prevdiag>>
 
 \* diagnostics outside statements (AssembleFile_ExitPass, or the process died inside a statement)
 Outside(e) ==
   LET fd == FoldDiags(o, d, e.dg, 1)
   IN /\ ph = "pass" /\ fd[1]
      /\ d' = fd[2] /\ ph' = DR!Dead(fd[2]) /\ tl' = e.dg /\ prevdiag' = FALSE
-     /\ UNCHANGED <<base, ca, ab, mp, cw, o, glob, keptq, cur, pass1, lastpe, resid, lastst>>
+     /\ UNCHANGED <<base, ca, ab, mp, cw, sy, en, o, glob, keptq, cur, pass1, lastpe, resid, lastst>>
 
 PassEnd(e) ==
   /\ DR!PassEnd(e)
   /\ e.ifd = Len(ca.stk)
-  /\ OpenConstructsAreReported(ca, ab, tl)
-  /\ tl' = <<>> /\ UNCHANGED <<base, ca, ab, mp, cw>>
+  /\ OpenConstructsAreReported(ca, ab, sy, tl)
+  /\ tl' = <<>> /\ UNCHANGED <<base, ca, ab, mp, cw, sy, en>>
 
 \* LastPassImageEqualsFile, second half: a code file that is kept was compared, and nothing is left in it
 FileEnd(e) ==
   /\ DR!FileEnd(e)
   /\ Claim("LastPassImageEqualsFile", (e.kept = 1) => cw.on)
   /\ (cw.on => StreamDone(Recs, cw))
+  /\ FinalTableIsListed(sy, e)
   /\ UNCHANGED mine
 
 TNext ==
-  /\ l <= Len(TraceLog) /\ l' = l + 1
-  /\ LET e == TraceLog[l] IN
-       CASE e.a = "S"       -> Stmt(e)
-         [] e.a = "RESET"   -> DR!Reset /\ MineReset
-         [] e.a = "RUN"     -> DR!Run(e) /\ MineReset
-         [] e.a = "FILE"    -> DR!File(e) /\ UNCHANGED mine
-         [] e.a = "PASS"    -> Pass(e)
-         [] e.a = "L"       -> Lines(e)
-         [] e.a = "T"       -> Outside(e)
-         [] e.a = "LAST"    -> DR!Last(e) /\ UNCHANGED mine
-         [] e.a = "PASSEND" -> PassEnd(e)
-         [] e.a = "FILEEND" -> FileEnd(e)
-         [] e.a = "EXIT"    -> DR!Exit(e) /\ UNCHANGED mine
+  /\ l <= Len(TraceLog)
+  /\ LET e == TraceLog[l]
+         j == IF e.a = "S" THEN BlockEnd(l, Block) ELSE l
+     IN /\ l' = j + 1
+        /\ CASE e.a = "S"       -> Stmts(j)
+             [] e.a = "RESET"   -> DR!Reset /\ MineReset
+             [] e.a = "RUN"     -> DR!Run(e) /\ MineReset
+             [] e.a = "FILE"    -> DR!File(e) /\ UNCHANGED mine
+             [] e.a = "PASS"    -> Pass(e)
+             [] e.a = "L"       -> Lines(e)
+             [] e.a = "T"       -> Outside(e)
+             [] e.a = "LAST"    -> DR!Last(e) /\ UNCHANGED mine
+             [] e.a = "PASSEND" -> PassEnd(e)
+             [] e.a = "FILEEND" -> FileEnd(e)
+             [] e.a = "EXIT"    -> DR!Exit(e) /\ UNCHANGED mine
+        /\ TLCSet(1, IF TLCGet(1) < j + 1 THEN j + 1 ELSE TLCGet(1))
+        /\ (j + 1 > Len(TraceLog) => TLCSet(2, 1))
 
-Accepted == TLCGet("stats").diameter - 1 = Len(TraceLog)
+\* accepted: some behaviour consumed every event; otherwise the position reached is printed for the harness
+Accepted == IF TLCGet(2) = 1 THEN TRUE ELSE PrintT(<<"REACHED", TLCGet(1)>>) /\ FALSE
 =============================================================================
